@@ -138,3 +138,62 @@ func H_C20_http_listing() {
 		vAssert(vRows[i].Compare(vRows[i+1]) <= 0, "files are listed in path order")
 	}
 }
+
+// vM3uRow stands in for m3uentry under H_C20_playlist: it records which files are listed.
+func vM3uRow(w http.ResponseWriter, host string, h hash.Hash, p path.Path) {
+	vRows = append(vRows, p)
+}
+
+// H_C20_playlist: the playlist of a directory of a multi-file torrent (<= 3 files, paths of 1..2
+// components over {a,b}, directory at depth 0 or 1): exactly the files within the directory are
+// listed, each once, in path order; a directory that holds no file is 'not found' and lists
+// nothing.
+func H_C20_playlist() {
+	nf := vParam("files")
+	var files []tor.Torfile
+	for i := 0; i < nf; i++ {
+		n := vChoose(vLN2[i][0], 1, 2)
+		var p path.Path
+		for k := 0; k < n; k++ {
+			p = append(p, vAB[vChoose(vLN2[i][1+k], 0, 1)])
+		}
+		files = append(files, tor.Torfile{Path: p, Length: 10})
+	}
+	t := tor.VRegister(make([]byte, 20), "t", files, int64(10*nf)+1)
+	var dir path.Path
+	if vParam("dirdepth") == 1 {
+		dir = path.Path{vAB[vChoose("d0", 0, 1)]}
+	}
+	vRows = nil
+	playlist(&vRW{}, &http.Request{Method: "GET", Host: "localhost:8088"}, t, dir)
+	want := 0
+	for _, f := range t.Files {
+		if f.Path.Within(dir) {
+			want++
+			n := 0
+			for _, r := range vRows {
+				if r.Equal(f.Path) {
+					n++
+				}
+			}
+			same := 0
+			for _, g := range t.Files {
+				if g.Path.Equal(f.Path) {
+					same++
+				}
+			}
+			vAssert(n == same, "every file within the directory is in the playlist, once per file")
+		}
+	}
+	vAssert(len(vRows) == want, "nothing outside the directory is in the playlist")
+	for i := 0; i+1 < len(vRows); i++ {
+		vAssert(vRows[i].Compare(vRows[i+1]) <= 0, "playlist entries are in path order")
+	}
+	if want == 0 {
+		vReach("not-found")
+		vAssert(vEffect("env:net/http.NotFound") == 1, "a directory that holds no file of the torrent is not found")
+	} else {
+		vReach("listed")
+		vAssert(vEffect("env:net/http.NotFound") == 0, "a directory that holds files is found")
+	}
+}
